@@ -1,4 +1,5 @@
-import Hostd.Proto
+import Hostd.Basic
+import Hostd.Drive.Registry
 import Hostd.Model.Registry
 import Hostd.Props.C20
-import Hostd.Drive.Registry
+import Hostd.Proto
